@@ -626,13 +626,14 @@ def init (width height : α) (vb : α × α × α × α) (err : Bool) (lens : Li
 /-- `ParseSVG` on a document whose root is `<svg>` (the root's own attributes are `attrs`) -/
 def parseSVG (h : SvgHead α) (attrs : List (Attr α)) (children : List (Tree α)) (lens : List α) : P α :=
   let (w, hh, vb, e) := parseViewBox o h
-  -- a given width/height is in px (the user unit when there is no viewBox), the canvas is in mm (svg.go ParseSVG)
+  -- a given width/height is in px (the user unit when there is no viewBox, i.e. no positive width/height
+  -- in the view box: fdd9e33), the canvas is in mm (svg.go ParseSVG)
   let given (d : Option (α × String)) : Bool := match d with | some (_, u) => u != "%" | none => false
   let (w, vb) := if given h.width then
-      (o.mul w o.mmPerPx, if o.le (o.sub vb.2.2.1 vb.1) o.zero then (vb.1, vb.2.1, o.add vb.1 w, vb.2.2.2) else vb)
+      (o.mul w o.mmPerPx, if o.le vb.2.2.1 o.zero then (vb.1, vb.2.1, o.add vb.1 w, vb.2.2.2) else vb)
     else (w, vb)
   let (hh, vb) := if given h.height then
-      (o.mul hh o.mmPerPx, if o.le (o.sub vb.2.2.2 vb.2.1) o.zero then (vb.1, vb.2.1, vb.2.2.1, o.add vb.2.1 hh) else vb)
+      (o.mul hh o.mmPerPx, if o.le vb.2.2.2 o.zero then (vb.1, vb.2.1, vb.2.2.1, o.add vb.2.1 hh) else vb)
     else (hh, vb)
   walk o (.elem "svg" attrs children) (init o w hh vb e lens)
 
